@@ -149,12 +149,12 @@ fn out_of(input: &pipe::Input, ps: usize) -> Result<String, String> {
 }
 
 fn print_styled(mods: &[ModuleS], style: NumStyle) -> pipe::Input {
-    pipe::Input { modules: mods.iter().map(|m| (m.path.clone(), Printer { style, reverse_type_attrs: false, docs_after_attrs: false }.module(m))).collect() }
+    pipe::Input { modules: mods.iter().map(|m| (m.path.clone(), Printer { style, reverse_type_attrs: false, docs_after_attrs: false, attr_order: 0 }.module(m))).collect() }
 }
 
 pub fn run(tier: &str, only: Option<&Value>) -> i32 {
     let mut rep = Report::new("C20", tier);
-    rep.rule = "E1: every accepted case of the layout space (and of small vftable / enum / multi-type spaces) x every applicable rewrite site — R1 explicit address equal to the current offset, R2 unnamed gap <-> address on the following field / #[size], R3 #[size] equal to the natural size, R4 #[index] equal to the current slot, R5 enum value equal to the implicit one — in every compatible combination of up to 8 sites, plus R6 decimal/hex/underscore spelling of every number and R7 every permutation of a module's definitions; oracle: the rewritten description is accepted and its output is byte-identical. distinct = distinct original descriptions with at least one site".into();
+    rep.rule = "E1: every accepted case of the layout space (and of small vftable / enum / multi-type spaces) x every applicable rewrite site — R1 explicit address equal to the current offset, R2 unnamed gap <-> address on the following field / #[size], R3 #[size] equal to the natural size, R4 #[index] equal to the current slot (also on functions that carry a doc line and a convention, written before and after those), R5 enum value equal to the implicit one — in every compatible combination of up to 8 sites, plus R6 decimal/hex/underscore spelling of every number and R7 every permutation of a module's definitions; oracle: the rewritten description is accepted and its output is byte-identical. distinct = distinct original descriptions with at least one site".into();
     rep.assumptions = vec!["rewrite sites are computed from the description by the reference layout model".into()];
     let space = LayoutSpace::new_reduced(tier, false);
     let only_i = only.map(|l| (l["space"].as_str().unwrap_or("").to_string(), l["index"].as_u64().unwrap_or(0) as usize, l["ps"].as_u64().unwrap_or(8) as usize));
@@ -344,6 +344,53 @@ fn other_cases(tier: &str) -> Vec<(&'static str, Vec<ModuleS>, Vec<Vec<ModuleS>>
                 }
                 out.push(("vftable", base, variants));
             }
+        }
+    }
+    // R4 next to other attributes: every function carries a doc line and a non-default convention; the
+    // index it already had is written before the convention and after it
+    for nf in 1..=3usize {
+        for gaps in 0..(1u32 << nf) {
+            let mut slot = 0i128;
+            let mut funcs = vec![];
+            let mut slots = vec![];
+            for i in 0..nf {
+                let mut f = FuncS::new(&format!("v{i}"));
+                f.recv = if i % 2 == 0 { Recv::Const } else { Recv::Mut };
+                f.cc = Some(["cdecl", "stdcall", "fastcall"][(i + gaps as usize) % 3].to_string());
+                f.doc = vec![format!(" slot of v{i}")];
+                if gaps >> i & 1 == 1 {
+                    slot += 1;
+                    f.index = Some(slot);
+                }
+                slots.push(slot);
+                slot += 1;
+                funcs.push(f);
+            }
+            let mk = |funcs: Vec<FuncS>| {
+                let mut t = TypeS::new("T");
+                t.vft = Some(VftS { size: None, funcs });
+                t.fields = vec![FieldS::new("p", MTy::b("u8").cptr())];
+                vec![ModuleS::new("m").with(vec![Item::Type(t)])]
+            };
+            let mut variants = vec![];
+            for mask in 1u32..(1 << nf) {
+                for after in [false, true] {
+                    let mut fs = funcs.clone();
+                    for i in 0..nf {
+                        if mask >> i & 1 == 1 {
+                            if after {
+                                // the printer writes `extra_attrs` behind the convention
+                                fs[i].index = None;
+                                fs[i].extra_attrs.push(format!("index({})", slots[i]));
+                            } else {
+                                fs[i].index = Some(slots[i]);
+                            }
+                        }
+                    }
+                    variants.push(mk(fs));
+                }
+            }
+            out.push(("vftable_with_attributes", mk(funcs.clone()), variants));
         }
     }
     // R5: enums, every subset of implicit variants made explicit
